@@ -263,7 +263,7 @@ def call_form(rng, nodes, i, t, p_hidden):
         # a plain helper of another package is named directly; an alias of it could be re-bound by an edit
         # that memento, by design, does not follow beyond the package
         return "bare" if src["mod"] == "e" else rng.choice(["bare", "xattr"])
-    forms = ["bare", "bare", "alias"]
+    forms = ["bare", "bare", "alias", "chain"]
     if src["mod"] == "b" and dst["mod"] == "a":
         if src["kind"] == "wrapped":
             return "attr"  # wrapped helpers of module b reach module a as a.<name>
@@ -323,6 +323,8 @@ def call_expr(prog, nd, c, arg="x"):
     t = prog["nodes"][c["t"]]
     if c["form"] == "bare":
         return "%s(%s)" % (t["name"], arg)
+    if c["form"] == "chain":  # the callee is named only inside the argument list of a call whose result is used through an attribute
+        return "box(%s(%s)).plus(0).v" % (t["name"], arg)
     if c["form"] == "attr":
         return "a.%s(%s)" % (t["name"], arg)
     if c["form"] == "pattr":
@@ -405,7 +407,7 @@ def from_imports(prog, mod):
             continue
         for c in all_calls(nd):
             t = prog["nodes"][c["t"]]
-            if t["mod"] != mod and c["form"] == "bare":
+            if t["mod"] != mod and c["form"] in ("bare", "chain"):
                 names.setdefault(t["mod"], set()).add(t["name"])
         for rd in nd["reads"]:
             v = prog["vars"][rd["v"]]
@@ -421,7 +423,7 @@ def from_imports(prog, mod):
 def header(prog, mod, twin, skip=()):
     pkg = ("tw_" if twin else "") + prog["pkg"]
     L = ["import datetime", "import functools", "import vf.twin as m" if twin else "import twosigma.memento as m",
-         "from vf.recorder import %s as REC" % ("TWIN_REC" if twin else "REC")]
+         "from vf.recorder import %s as REC" % ("TWIN_REC" if twin else "REC"), "from vf.twin import box"]
     if mod == "b":
         L.append("import %s.a as a" % pkg)
     if mod in ("a", "b") and has_mod(prog, "i"):
